@@ -1,5 +1,6 @@
 import Driver.Common
 import ScionTime.Model.ScionSrv
+import ScionTime.Model.ClientId
 open Driver ScionTime.ScionSrv
 
 /-! ops:
@@ -9,6 +10,11 @@ open Driver ScionTime.ScionSrv
   auth.meta <hex>                 -> ok <spi> <alg> | panic ...
   auth.mac <hex>                  -> ok <hex> | panic ...
   auth.prepare <hex> <spi> <alg>  -> ok <hex> 2 4:2 | panic index
+  id.text <sia>                   -> ok <IA text>            (addr.IA.String, model `iaText`)
+  srv.ident sock= hopa= hopb= asia= ast= asa= bsia= bst= bsa= aia= ahost= bia= bhost=
+      -> ok a=basic b=<basic|inter> a2=<inter|basic>
+     (client-identity history, property C06: A basic exchange, B quotes A's receive timestamp,
+      A quotes it; B and A are the same client iff their `clientIdScion ia host` agree)
 -/
 
 /-- canonical decimal (no sign, no leading zero) within [lo, hi]. -/
@@ -119,6 +125,36 @@ def srvHandle (toks : List String) : String :=
     r.getD "bad-op"
   | _ => "bad-op"
 
+def identKeys : List String :=
+  ["sock", "hopa", "hopb", "asia", "ast", "asa", "bsia", "bst", "bsa", "aia", "ahost", "bia", "bhost"]
+
+def valuesOf? (keys toks : List String) : Option (List String) :=
+  if toks.length ≠ keys.length then none else
+  (toks.zip keys).mapM fun (t, k) =>
+    if t.startsWith (k ++ "=") ∧ t.length > k.length + 1 then some (t.drop (k.length + 1)).toString else none
+
+def srvIdent (toks : List String) : String :=
+  match valuesOf? identKeys toks with
+  | some [sock, hopa, hopb, asia, ast, asa, bsia, bst, bsa, aia, ahost, bia, bhost] =>
+    let r : Option String := do
+      let _ ← num? hopa 0 1
+      let _ ← num? hopb 0 1
+      let asia ← num? asia 0 18446744073709551615
+      let bsia ← num? bsia 0 18446744073709551615
+      let ast ← num? ast 0 3
+      let bst ← num? bst 0 3
+      let asa ← lowerHex? asa
+      let bsa ← lowerHex? bsa
+      if sock ≠ "svc" ∧ sock ≠ "eh" then none
+      if (ast ≠ 0 ∧ ast ≠ 3) ∨ (bst ≠ 0 ∧ bst ≠ 3) then none
+      if asa.length ≠ 4 * (1 + ast) ∨ bsa.length ≠ 4 * (1 + bst) then none
+      -- the IA texts must be the ones the model of addr.IA.String gives
+      if aia ≠ String.ofList (ScionTime.ClientId.iaText asia) ∨ bia ≠ String.ofList (ScionTime.ClientId.iaText bsia) then none
+      let same := ScionTime.ClientId.clientIdScion aia ahost == ScionTime.ClientId.clientIdScion bia bhost
+      pure (if same then "ok a=basic b=inter a2=basic" else "ok a=basic b=basic a2=inter")
+    r.getD "bad-op"
+  | _ => "bad-op"
+
 def fmtRes {α : Type} (f : α → String) : Res α → String
   | .ok a => "ok " ++ f a
   | .panic c => "panic " ++ c
@@ -126,6 +162,11 @@ def fmtRes {α : Type} (f : α → String) : Res α → String
 def step (_ : Unit) (toks : List String) : Unit × String :=
   match toks with
   | "srv.handle" :: rest => ((), srvHandle rest)
+  | "srv.ident" :: rest => ((), srvIdent rest)
+  | ["id.text", n] =>
+    match num? n 0 18446744073709551615 with
+    | some n => ((), "ok " ++ String.ofList (ScionTime.ClientId.iaText n))
+    | none => ((), "bad-op")
   | ["auth.meta", h] =>
     match lowerHex? h with
     | some d => ((), fmtRes (fun (x : Nat × Nat) => s!"{x.1} {x.2}") (authMeta d))
